@@ -25,6 +25,8 @@ def main():
     out = {"dir": d, "checks": {}}
     try:
         r = sh(["git", "-C", scratch, "apply", os.path.join(d, "patch.diff")])
+        if r.returncode != 0:  # the tree moved on since the patch was written (later fix commits): try a 3-way merge
+            r = sh(["git", "-C", scratch, "apply", "--3way", os.path.join(d, "patch.diff")])
         out["patch_applies"] = r.returncode == 0
         if r.returncode == 0:
             if "--tests" in opts:
